@@ -129,8 +129,12 @@ def generate(r, tier):
                 if td.get("obj") and r.random() < 0.7:
                     nt = {"id": td["id"] + ".n", "fn": "__init__", "op": "new", "cls": "K0", "obj": td["obj"]}
                     td.setdefault("body", {}).setdefault("nested", []).insert(r.randint(0, len(td["body"].get("nested", []))), nt)
-                elif r.random() < 0.3:
-                    scn["faulted"].append({"id": td["id"] + ".t", "fn": "__init__", "op": "new", "cls": "K0", "obj": r.choice(world["objects"])["name"]})
+                elif r.random() < 0.5:
+                    nt = {"id": td["id"] + ".t", "fn": "__init__", "op": "new", "cls": "K0", "obj": r.choice(world["objects"])["name"]}
+                    if world["classes"][0].get("invs") and r.random() < 0.6:
+                        # the existing instance is handed out again while one of its invariants does not hold: the construction fails
+                        nt["poke"] = {"K0/inv%d" % r.randrange(len(world["classes"][0]["invs"])): False}
+                    scn["faulted"].append(nt)
         if world.get("classes") and r.random() < 0.3:
             # the class is a proxy whose attribute look-up may fail: ``instance.__class__`` raises at its n-th look-up within a call
             world["classes"][0]["ga"] = True
